@@ -76,7 +76,10 @@ class Eval:
             return None
         if d[2] == "rv":
             rv = d[3]
-            flds = [e for e in proj if "f" in e]
+            # payload fields of Option / Result / ControlFlow wrappers are not components of a struct or tuple
+            flds = [e for e in proj if "f" in e and not re.search(r"(Option|Result|ControlFlow)(::\w+)?$|::(Some|Ok|Err|Continue|Break)$", e.get("adt") or "")]
+            if rv["k"] == "agg" and len(rv["ops"]) == 1 and rv["kind"].get("a") == "adt" and rv["kind"].get("var") in ("Some", "Ok", "Continue"):
+                return self.val(rv["ops"][0], depth - 1, flds)       # Some(x) / Ok(x): the pending struct fields go on to x
             if rv["k"] == "agg" and len(rv["ops"]) > 1 and rv["kind"].get("a") in ("tuple", "adt"):
                 if not flds or flds[0]["f"] >= len(rv["ops"]):
                     return None
@@ -88,7 +91,7 @@ class Eval:
                 return self.val({"c": rv["p"]}, depth - 1, proj)
             return self.rv(rv, depth - 1)
         if d[2] == "call":
-            return self.call(d[3], depth - 1)
+            return self.call(d[3], depth - 1, proj)
         return None
 
     def rv(self, rv, depth):
@@ -129,7 +132,7 @@ class Eval:
                 return None
         return None
 
-    def call(self, t, depth):
+    def call(self, t, depth, pend=()):
         lv = self.leaf(self.b, "call", t)
         if lv is not None:
             return lv
@@ -187,5 +190,5 @@ class Eval:
                 return len(kb)
             return None
         if short in PASS1 and len(args) >= 1:
-            return self.val(args[0], depth)
+            return self.val(args[0], depth, [e for e in pend if "f" in e and not re.search(r"(Option|Result|ControlFlow)(::\w+)?$|::(Some|Ok|Err|Continue|Break)$", e.get("adt") or "")])
         return None
